@@ -15,17 +15,22 @@ LEVEL = "exploration"
 TECHNIQUE = "exhaustive enumeration of dataset classes x all dictionary pairs against member-wise evaluation and the restricted-dictionary equality rule"
 RULE = (
     "member kinds {Option('A'), Option('S.X'), Option('B', 2), dataset reading C, Option('D', 1) >> f, constant, "
-    "member inherited from a base class}; all classes with 1..3 distinct kinds (63); dictionaries = product of the "
+    
+    "Option('S.W') (second key of the same section), Option('S.Z.K', 0) (deeper key of that section), member "
+    "inherited from a plain base class}; all classes with 1..3 distinct kinds (129); plus a dataset class derived "
+    "from another dataset class in three usage orders; dictionaries = product of the "
     "keys the members mention (+ one junk key, + sibling S.Y); for every dictionary: attributes, validate/keys/"
     "explain = union over members, repr; for every ORDERED PAIR: a == b iff restrict(o_a, keys) == restrict(o_b, "
     "keys).  Non-trivial = pairs whose dictionaries differ."
 )
 ASSUMPTIONS = ["restrict() of labmc/optspace.py defines 'restricted to the keys the class reports'"]
 
-KINDS = ["flat", "dotted", "defaulted", "ds", "applied", "const", "inherited"]
+KINDS = ["flat", "dotted", "dotted2", "deep", "defaulted", "ds", "applied", "const", "inherited"]
 SPEC = {
     "flat": [("A", [1, 2])],
     "dotted": [("S.X", [1, 2]), ("S.Y", [ABSENT, 9])],
+    "dotted2": [("S.W", [1, 2])],
+    "deep": [("S.Z.K", [ABSENT, 1, 2])],
     "defaulted": [("B", [ABSENT, 2, 3])],
     "ds": [("C", [ABSENT, 4])],
     "applied": [("D", [ABSENT, 5])],
@@ -48,6 +53,8 @@ def build_class(kinds):
     members = {
         "flat": Option("A"),
         "dotted": Option("S.X"),
+        "dotted2": Option("S.W"),
+        "deep": Option("S.Z.K", 0),
         "defaulted": Option("B", 2),
         "ds": d,
         "applied": Option("D", 1) >> f_tag,
@@ -81,8 +88,10 @@ def cases(tier, seed):
     combos = []
     for n in (1, 2, 3):
         combos.extend(itertools.combinations(KINDS, n))
-    for a in range(0, len(combos), 2):
-        out.append(("classes", [list(c) for c in combos[a : a + 2]]))
+    for a in range(0, len(combos), 4):
+        out.append(("classes", [list(c) for c in combos[a : a + 4]]))
+    for order in ("parent-first", "child-first", "child-only"):
+        out.append(("derived", order))
     return out
 
 
@@ -152,6 +161,56 @@ def check_class(kinds, res):
     return fails
 
 
+def check_derived(order, res):
+    """A dataset class derived from another dataset class: the child's validate/keys/explain/==/repr
+    cover the parent's members AND its own, whichever of the two classes is used first."""
+    from labrea import Option, datasetclass
+
+    fails = []
+    Parent = datasetclass(type("Parent", (), {"__annotations__": {"p": int}, "p": Option("P.X")}))
+    Child = datasetclass(type("Child", (Parent,), {"__annotations__": {"c": int}, "c": Option("C.Y", 0)}))
+    dicts = [{"P": {"X": x}, **({"C": {"Y": y}} if y is not None else {})} for x in (1, 2) for y in (None, 5, 6)]
+    if order == "parent-first":
+        for o in dicts:
+            Parent(o), Parent.keys(o), Parent.explain(o), Parent.validate(o)
+    if order == "child-first":
+        Child(dicts[1])
+        for o in dicts:
+            Parent(o), Parent.keys(o)
+
+    def fail(kind, d, o):
+        if not any(f["sig"].startswith(f"C19|derived|{kind}") for f in fails):
+            fails.append({"sig": f"C19|derived|{kind}|{order}|{o!r}", "what": f"{kind}: dataset class derived from a dataset class ({order}) under {o!r}", "detail": d, "case": ("derived", order)})
+
+    insts = []
+    for o in dicts:
+        res["evaluations"] += 1
+        want_keys = {"P.X"} | ({"C.Y"} if "C" in o else set())
+        ks = observe(None, lambda: Child.keys(copy.deepcopy(o)))
+        if not ks.ok or set(ks.value) != want_keys:
+            fail("keys-not-the-union-of-members", f"{ks!r} vs {sorted(want_keys)}", o)
+        ex = observe(None, lambda: Child.explain(copy.deepcopy(o)))
+        if not ex.ok or set(ex.value) != want_keys:
+            fail("explain-not-the-union-of-members", f"{ex!r} vs {sorted(want_keys)}", o)
+        inst = observe(None, lambda: Child(copy.deepcopy(o)), materialise=False)
+        if not inst.ok:
+            fail("instantiation-failed", repr(inst), o)
+            continue
+        obj = inst.value
+        if obj.p != o["P"]["X"] or obj.c != o.get("C", {}).get("Y", 0):
+            fail("attribute-differs-from-member-evaluation", f"p={obj.p!r} c={obj.c!r}", o)
+        r = restrict(o, want_keys)
+        if repr(obj) != f"Child({_ordered(r, want_keys)!r})":
+            fail("repr", f"{repr(obj)} vs Child({_ordered(r, want_keys)!r})", o)
+        insts.append((o, obj, freeze(r)))
+    for (oa, a, ra), (ob, b, rb) in itertools.product(insts, repeat=2):
+        res["pairs"] += 1
+        res["nontrivial"] += 1
+        if (a == b) != (ra == rb):
+            fail("equality", f"{oa!r} vs {ob!r}: == is {a == b}", (oa, ob))
+    return fails
+
+
 def _ordered(r, keys):
     """The restricted dictionary laid out as set_dotted_key would, in sorted key order."""
     from ..optspace import lookup, set_path
@@ -164,11 +223,16 @@ def _ordered(r, keys):
 
 
 def run_case(case):
-    res = {"failures": [], "evaluations": 0, "nontrivial": 0, "pairs": 0, "samples": []}
+    res = {"failures": [], "evaluations": 0, "nontrivial": 0, "pairs": 0, "samples": [], "classes": 0}
     if case[0] == "class":
         res["failures"] = check_class(tuple(case[1]), res)
         return res
+    if case[0] == "derived":
+        res["failures"] = check_derived(case[1], res)
+        res["classes"] = 2
+        return res
     for kinds in case[1]:
+        res["classes"] += 1
         res["failures"].extend(check_class(tuple(kinds), res))
     if case[1][0] == ["flat"]:
         res["samples"].append({"members": ["flat", "dotted", "ds"], "dictionaries": len(class_dicts(("flat", "dotted", "ds"))), "example_pair": [{"A": 1, "S": {"X": 1}}, {"A": 1, "S": {"X": 2}}]})
@@ -185,7 +249,7 @@ def summarize(results, tier):
         "distinct_nontrivial": tot("nontrivial"),
         "instances": tot("evaluations"),
         "ordered_pairs": tot("pairs"),
-        "classes": 63,
+        "classes": tot("classes"),
         "samples": samples[:4],
         "exhaustive": True,
     }
